@@ -101,13 +101,66 @@ class VLoop(asyncio.SelectorEventLoop):
         return self.run_until_complete(runner())
 
 
+_WATCHDOG = {"fired": 0}
+
+
+class WallClockExceeded(BaseException):
+    """the code under test kept the CPU without ever yielding to the event loop (or the run needed more real
+    time than any simulated run can need): raised from a SIGALRM handler so that it interrupts a busy loop"""
+
+
+def _arm_watchdog(limit):
+    import signal
+    import threading
+
+    if limit <= 0 or threading.current_thread() is not threading.main_thread():
+        return None
+
+    def handler(signum, frame):
+        # raised inside whatever is executing - typically the code that keeps the CPU.  asyncio stores a
+        # BaseException raised inside a task in that task and carries on, so the firing is also remembered and
+        # `run` reports it when the run is over; the timer is re-armed in case the loop is starved again.
+        _WATCHDOG["fired"] += 1
+        signal.setitimer(signal.ITIMER_REAL, limit)
+        raise WallClockExceeded("no return to the harness within %.0f s of wall-clock time" % limit)
+
+    try:
+        old = signal.signal(signal.SIGALRM, handler)
+        signal.setitimer(signal.ITIMER_REAL, limit)
+        return old
+    except (ValueError, OSError):
+        return None
+
+
+def _disarm_watchdog(old):
+    import signal
+
+    if old is None:
+        return
+    try:
+        signal.setitimer(signal.ITIMER_REAL, 0)
+        signal.signal(signal.SIGALRM, old)
+    except (ValueError, OSError):
+        pass
+
+
 def run(coro_fn, *args, **kw):
-    """run `coro_fn(loop, *args)` on a fresh VLoop and close it"""
+    """run `coro_fn(loop, *args)` on a fresh VLoop and close it; a run that does not come back within
+    VERIF_WALL_LIMIT seconds (default 180) of real time raises WallClockExceeded"""
+    import os
+
     loop = VLoop()
+    limit = float(os.environ.get("VERIF_WALL_LIMIT", "180"))
+    _WATCHDOG["fired"] = 0
+    old = _arm_watchdog(limit)
     try:
         asyncio.set_event_loop(loop)
-        return loop.run_main(coro_fn(loop, *args, **kw))
+        out = loop.run_main(coro_fn(loop, *args, **kw))
+        if _WATCHDOG["fired"]:
+            raise WallClockExceeded("the event loop was starved for %.0f s of wall-clock time (%d time(s)) during this run" % (limit, _WATCHDOG["fired"]))
+        return out
     finally:
+        _disarm_watchdog(old)
         try:
             # cancel leftovers so that the loop closes quietly
             pend = [t for t in asyncio.all_tasks(loop) if not t.done()]
